@@ -387,6 +387,32 @@ def r2_shift(ctx):
                 vf.mentions(n, lambda x: x == LEN) and vf.mentions(n, lambda x: x == ("arg", 1)) and vf.mentions(n, lambda x: x == ("c", esz))
             detail.append("%s(ary+%s, ary+%s, %s)" % (c.callee.split(".")[1] if "." in c.callee else c.callee, vf.show(di), vf.show(si), vf.show(n)))
         good = good and ok
+    if not good and any(es.in_loop_body(L, c) for c, di, si, n in moves for L in es.index_loops(fn)):
+        # another spelling of the shifting loop (index running one ahead, a cursor ...): evaluated with the array at address 1000 -
+        # deleting index 0 of 3 and index 1 of 4 must copy element j+1 to element j for j = index .. len-2, in that order
+        evald = []
+        for index, ln in ((0, 3), (1, 4), (2, 4)):
+            seqs = []
+
+            def classify_m(inst, E, st):
+                if inst.op == "call" and (inst.callee or "").startswith(("llvm.memcpy", "llvm.memmove", "memcpy", "memmove")):
+                    d_, s_ = flow.av_single(E.val(inst.args[0])), flow.av_single(E.val(inst.args[1]))
+                    if d_ is not None and s_ is not None and d_ >= 1000 and s_ >= 1000:
+                        k = int(st.get("k", "0"))
+                        return ["=k:%d" % (k + 1), "=m%d:%d<%d" % (k, d_, s_)]
+                return None
+            outs_m, _f = es.count_effects(fn, pdb, classify_m, None, values=lambda pe, ln=ln: {"node_data.ary": 1000, "node_data.len": ln}.get(vf.last_field(pe)),
+                                          cell={1: index}, cap=64)
+            want_m = ["%d<%d" % (1000 + esz * j, 1000 + esz * (j + 1)) for j in range(index, ln - 1)]
+            for o in outs_m:
+                cnt = o["counts"]
+                seqs.append([cnt.get("m%d" % k) for k in range(int(cnt.get("k", "0")))])
+            evald.append((index, ln, bool(seqs) and all(q == want_m for q in seqs), seqs[:1]))
+        if all(e[2] for e in evald):
+            good = True
+            detail = ["evaluated (array at 1000, delete index 0 of 3, 1 of 4, 2 of 4): element j+1 is copied to element j for j = index .. len-2, in ascending order"]
+        else:
+            detail.append("evaluated: %s" % [(e[0], e[1], e[3]) for e in evald if not e[2]][:2])
     ctx.check(good, "C02.R2", "del_elem:gap-closed-in-ascending-order", moves[0][0].loc(),
               "; ".join(detail) + " (each slot from index on receives its successor before that successor is overwritten)", key="C02.R2:del_elem:shift")
 
